@@ -362,6 +362,8 @@ pub fn run(p: &Params) -> Run {
         }
     }
     let _ = std::fs::remove_file(&join_path);
+    // the same relation through the program itself (-c / --command-file): `;` and `--` inside literals and comments
+    crate::cli::layout_stream(&mut run, &mut rng, p.n(40, 600));
     run.notes.push(format!("{} statements skipped because the harness scanner does not cover them", skipped_scan));
     run.notes.push("relation: parse(base) == parse(variant) through {:?}, and equal printed output for queries; the trailing semicolon is varied for queries only (mandatory terminator of CREATE TABLE); modifier words are not case-varied".to_owned());
     run
